@@ -2,6 +2,7 @@
 Each check = proof stage (Props/Cxx.v) + correspondence impl<->model (evaluated in Coq) + the
 property's own oracle evaluated on the implementation (CPython counterpart / release predicate / identity)."""
 import builtins
+import itertools
 import json
 import os
 import random
@@ -738,6 +739,21 @@ def check_faults(prop, tier, seed):
             if why:
                 fails += 1
                 rep.violation(sig(c, why[0]), {"case": encode_case(cp), "why": why[1], "log": repr(rp["log"]), "states": rp["states"]})
+        if prop == "C06" and c.tool.kind in ("gen", "agg") and c.plan is None:
+            # the same tool over plain *synchronous* iterators: an exception raised by such a source or by a callable
+            # (TypeError / AttributeError / KeyError flavoured) surfaces unchanged there as well
+            s0 = G.run_impl_sync_sources(c)
+            suk = use_kinds(s0["log"])
+            pos = [k for k, kind in enumerate(suk) if kind in ("pull", "call") and k < lim]
+            for k in (pos if len(pos) <= 5 else rng.sample(pos, 5)):
+                flavour = 1 + nplans % 3
+                rs = G.run_impl_sync_sources(with_plan(c, (k, ("inj", 7, False, flavour))))
+                nplans += 1
+                es = rs["outcome"][2] if len(rs["outcome"]) > 2 else None
+                if rs["ctx"].fired and (rs["outcome"][0] != "exn" or not isinstance(es, (Inj, InjBase)) or es.id != 7):
+                    fails += 1
+                    rep.violation(sig(c, "not-propagated-sync-source"), {"case": encode_case(c), "why": "with synchronous sources the injected %s at use %d (%s) did not "
+                                  "propagate unchanged: outcome %r" % (G.inj_class(flavour).__name__, k, suk[k], rs["outcome"][:2])})
         if prop == "C06" and c.name in STD_ORDER_TOOLS and c.tool.std is not None and c.plan is None:
             # enumerate the fault positions over the CPython counterpart's own use sequence as well: a use the
             # implementation no longer performs (so that the failure is swallowed) has no position in its own sequence
@@ -767,6 +783,7 @@ def check_faults(prop, tier, seed):
     ng = (150 * builtins.min(2, common.scale(rep))) if tier == "quick" else 3000
     if prop == "C06":
         fails += check_c16.aspect_faults(rep, rng, 2 * ng)
+        fails += falsy_callable_fault_probes(rep)
     elif prop == "C04":
         fails += check_c16.aspect_release(rep, rng, ng, cancel=False)
         fails += check_c16.aspect_release(rep, rng, ng // 2, cancel=True)
@@ -895,6 +912,75 @@ def equal_sources_release(rep):
                 if why:
                     fails += 1
                     rep.violation("release:equal-sources", {"tool": name, "sources": k, "take": take, "why": why})
+    return fails
+
+
+def falsy_callable_fault_probes(rep):
+    """C06, directed: a key / function given as a callable *object that is falsy* (an empty callable container) is called like
+    any other, so the error it raises at its n-th call surfaces exactly where the stdlib counterpart raises it"""
+    import heapq
+    import functools
+    import asyncstdlib as a
+
+    class Boom(Exception):
+        pass
+
+    def mk(n, asynchronous):
+        class K:
+            def __init__(self):
+                self.calls = 0
+
+            def __len__(self):
+                return 0
+            if asynchronous:
+                async def __call__(self, *args):
+                    self.calls += 1
+                    if self.calls == n:
+                        raise Boom(n)
+                    return args[-1]
+            else:
+                def __call__(self, *args):
+                    self.calls += 1
+                    if self.calls == n:
+                        raise Boom(n)
+                    return args[-1]
+        return K()
+
+    async def alist(it):
+        return [x async for x in it]
+    data = [5, 3, 8, 1]
+    probes = {
+        "merge": (lambda k: G.drive(alist(a.merge([1, 4], [2, 3], key=k))), lambda k: list(heapq.merge([1, 4], [2, 3], key=k))),
+        "min": (lambda k: G.drive(a.min(data, key=k)), lambda k: builtins.min(data, key=k)),
+        "max": (lambda k: G.drive(a.max(data, key=k)), lambda k: builtins.max(data, key=k)),
+        "sorted": (lambda k: G.drive(a.sorted(data, key=k)), lambda k: builtins.sorted(data, key=k)),
+        "nlargest": (lambda k: G.drive(a.nlargest(data, 2, key=k)), lambda k: heapq.nlargest(2, data, key=k)),
+        "nsmallest": (lambda k: G.drive(a.nsmallest(data, 2, key=k)), lambda k: heapq.nsmallest(2, data, key=k)),
+        "map": (lambda k: G.drive(alist(a.map(k, data))), lambda k: list(map(k, data))),
+        "filter": (lambda k: G.drive(alist(a.filter(k, data))), lambda k: list(filter(k, data))),
+        "takewhile": (lambda k: G.drive(alist(a.takewhile(k, data))), lambda k: list(itertools.takewhile(k, data))),
+        "accumulate": (lambda k: G.drive(alist(a.accumulate(data, k))), lambda k: list(itertools.accumulate(data, k))),
+        "reduce": (lambda k: G.drive(a.reduce(k, data)), lambda k: functools.reduce(k, data)),
+        "groupby": (lambda k: G.drive(alist(a.map(lambda kg: kg[0], a.groupby(data, key=k)))), lambda k: [kk for kk, _ in itertools.groupby(data, key=k)]),
+    }
+    fails = 0
+    for name, (fa, fs) in probes.items():
+        for n in (1, 2, 3, 99):
+            def ev(f, k):
+                try:
+                    return ("ok", f(k), k.calls)
+                except Boom as e:
+                    return ("boom", e.args[0], k.calls)
+                except BaseException as e:  # noqa
+                    return ("other", type(e).__name__)
+            want = ev(fs, mk(n, False))
+            for asynchronous in (False, True):
+                got = ev(fa, mk(n, asynchronous))
+                rep.count(("falsy-callable", name, n, asynchronous), True)
+                if got[:2] != want[:2]:
+                    fails += 1
+                    rep.violation("falsy-callable:%s" % name, {"tool": name, "fails_at_call": n, "async_callable": asynchronous,
+                                                                "why": "asyncstdlib %r, stdlib %r" % (got, want)})
     return fails
 
 
